@@ -36,6 +36,27 @@ fn tasks_of(engine: &acts::Engine, pid: &str) -> Vec<Value> {
     out
 }
 
+fn stored_dump(engine: &acts::Engine, pids: &[String]) -> (Vec<Value>, Vec<Value>, Vec<Value>) {
+    let mut stored_procs = Vec::new();
+    let mut stored_tasks = Vec::new();
+    let mut live = Vec::new();
+    for p in pids {
+        live.push(acts::verif::live_dump(engine, p).unwrap_or(Value::Null));
+        if let Ok(r) = acts::verif::procs(engine).find(p) {
+            stored_procs.push(json!({"id": r.id, "state": r.state, "env": serde_json::from_str::<Value>(&r.env).unwrap_or(Value::Null), "err": r.err,
+                "start_time": r.start_time, "end_time": r.end_time}));
+        }
+        let q = acts::query::Query::new().push(acts::query::Cond::and().push(acts::query::Expr::eq("pid", p.clone())));
+        if let Ok(page) = acts::verif::tasks(engine).query(&q) {
+            for t in page.rows {
+                stored_tasks.push(json!({"pid": t.pid, "tid": t.tid, "state": t.state, "prev": t.prev, "data": serde_json::from_str::<Value>(&t.data).unwrap_or(Value::Null),
+                    "err": t.err, "start_time": t.start_time, "end_time": t.end_time}));
+            }
+        }
+    }
+    (live, stored_procs, stored_tasks)
+}
+
 async fn settle(engine: &acts::Engine, obs: &Arc<Obs>, pids: &[String]) {
     // quiescence: the in-flight counter of the verif hooks is 0 on three consecutive polls and nothing
     // observable changed meanwhile
@@ -307,8 +328,9 @@ async fn run(sc: Value) {
             let info = engine.executor().proc().get(p);
             ps.push(json!({"pid": p, "state": info.as_ref().map(|i| i.state.clone()).unwrap_or("missing".to_string()), "tasks": tasks_of(&engine, p)}));
         }
+        let (lv, sp, stt) = stored_dump(&engine, &pids);
         snapshots.push(json!({"procs": ps, "nmsg": obs.messages.lock().unwrap().len(), "nevents": obs.events.lock().unwrap().len(),
-            "ntrace": TRACE.lock().unwrap().len()}));
+            "ntrace": TRACE.lock().unwrap().len(), "live": lv, "stored_procs": sp, "stored_tasks": stt}));
     }
     let mut procs = Vec::new();
     for p in &pids {
@@ -319,6 +341,21 @@ async fn run(sc: Value) {
     for p in &pids {
         live.push(acts::verif::live_dump(&engine, p).unwrap_or(Value::Null));
     }
+    let mut stored_procs = Vec::new();
+    let mut stored_tasks = Vec::new();
+    for p in &pids {
+        if let Ok(r) = acts::verif::procs(&engine).find(p) {
+            stored_procs.push(json!({"id": r.id, "state": r.state, "env": serde_json::from_str::<Value>(&r.env).unwrap_or(Value::Null), "err": r.err,
+                "start_time": r.start_time, "end_time": r.end_time}));
+        }
+        let q = acts::query::Query::new().push(acts::query::Cond::and().push(acts::query::Expr::eq("pid", p.clone())));
+        if let Ok(page) = acts::verif::tasks(&engine).query(&q) {
+            for t in page.rows {
+                stored_tasks.push(json!({"pid": t.pid, "tid": t.tid, "state": t.state, "prev": t.prev, "data": serde_json::from_str::<Value>(&t.data).unwrap_or(Value::Null),
+                    "err": t.err, "start_time": t.start_time, "end_time": t.end_time}));
+            }
+        }
+    }
     let mut stored_msgs = Vec::new();
     if let Ok(page) = acts::verif::messages(&engine).query(&acts::query::Query::new()) {
         for m in page.rows {
@@ -327,7 +364,7 @@ async fn run(sc: Value) {
         }
     }
     let out = json!({"procs": procs, "messages": *obs.messages.lock().unwrap(), "events": *obs.events.lock().unwrap(), "results": results,
-        "trace": *TRACE.lock().unwrap(), "snapshots": snapshots, "live": live, "stored_messages": stored_msgs});
+        "trace": *TRACE.lock().unwrap(), "snapshots": snapshots, "live": live, "stored_procs": stored_procs, "stored_tasks": stored_tasks, "stored_messages": stored_msgs});
     println!("{}", out);
     std::process::exit(0);
 }
